@@ -922,7 +922,7 @@ async fn hostile_inner(hseed: u64, r: &mut Rng, inst: &ServerInstance, rep: &mut
         drop(h);
         rep.eval("C13:other-connections-untouched");
         let mut members = 0;
-        for _ in 0..300 {
+        for _ in 0..1000 {
             let g = timed("get_group", good.get_consumer_group(&one, &two, &one)).await?.map_err(|e| Stop::Inconclusive(e.to_string()))?;
             members = g.map(|g| g.members_count).unwrap_or(0);
             if members == 1 {
